@@ -530,6 +530,8 @@ class Model:
             return "async-method" if f.is_async else "method"
         if name in s.classes:
             return "nested-class"
+        if name in s.aliases:
+            return "pep695-alias"
         if name in s.vars:
             v = s.vars[name][0]
             if v.via_self:
